@@ -268,6 +268,22 @@ pub fn session_with(suite: BoxedStrategy<Suite>) -> BoxedStrategy<Session> {
                     v.extend_from_slice(&s.psk);
                     s.info = Bytes(v);
                 }
+                // the randomness the sender will draw reproduces a static key of the session: RFC 9180
+                // defines enc == pkR / pkS and a working session for that ikmE too
+                8 => s.ikm_r = Bytes(s.stream[..s.suite.kem.nsk()].to_vec()),
+                9 => s.ikm_s = Bytes(s.stream[..s.suite.kem.nsk()].to_vec()),
+                10 => s.ikm_r = Bytes(s.stream[s.suite.kem.nsk()..2 * s.suite.kem.nsk()].to_vec()),
+                11 => s.ikm_s = Bytes(s.stream[s.suite.kem.nsk()..2 * s.suite.kem.nsk()].to_vec()),
+                // degenerate RNG output: the first Nsk bytes all zero / all 0xff, then ordinary bytes
+                12 | 13 => {
+                    let n = s.suite.kem.nsk();
+                    let fillb = if s.stream[158] % 64 == 12 { 0u8 } else { 0xff };
+                    let mut v = s.stream.0.clone();
+                    for b in v[..n].iter_mut() {
+                        *b = fillb;
+                    }
+                    s.stream = Bytes(v);
+                }
                 _ => {}
             }
             s
